@@ -412,18 +412,20 @@ let run_layout (x : sexp) : string =
 
 (* ---- C09: literals --------------------------------------------------------------- *)
 let run_literal (x : sexp) : string =
-  match x with
-  | L [A neg; A kind; A mag; A sfx; A ty] ->
+  let go neg kind mag sfx ty ub =
       let m = z_of_string mag in
       let tok = match kind with
         | "naked" -> Literal.TNaked m | "bits" -> Literal.TBits m
         | "suffixed" -> Literal.TSuffixed (m, prim_of_string sfx) | _ -> failwith "kind" in
       let t = prim_of_string ty in
       let (l, _) = Literal.source_literal true (neg = "1") tok in
-      let bits = Literal.bits_of (z_of_int 64) l t in
-      let w = TypeTables.vt_bits (z_of_int 64) t in
+      let bits = Literal.bits_of (z_of_int ub) l t in
+      let w = TypeTables.vt_bits (z_of_int ub) t in
       let v = if TypeTables.vt_is_signed t then Bits.sgn w bits else bits in
-      Printf.sprintf "lint=%b value=%s" (Literal.lint l t) (string_of_z v)
+      Printf.sprintf "lint=%b value=%s" (Literal.lint_on (z_of_int ub) l t) (string_of_z v) in
+  match x with
+  | L [A neg; A kind; A mag; A sfx; A ty] -> go neg kind mag sfx ty 64
+  | L [A neg; A kind; A mag; A sfx; A ty; A ub] -> go neg kind mag sfx ty (int_of_string ub)      (* usize_bits of the target *)
   | _ -> failwith "literal"
 
 (* ---- C03: linkage ---------------------------------------------------------------- *)
